@@ -642,3 +642,21 @@ Proof.
   apply dscale0_eq; [assumption|]. apply BTeq_sym. apply dsuml_uniform; assumption.
 Qed.
 
+
+Lemma dsub_as_dadd A B k : bsh k = [] -> c0 k = (-1) -> dsub A B == dadd A (dscale B k).
+Proof.
+  intros HK HV. apply BTeq_intro; simpl; rewrite ?HK, ?bcast_nil_r; try reflexivity.
+  intros I i j _ _ _. ub. rewrite HK. simpl. rewrite (bproj_bproj _ _ _ (bsub_refl (bsh B))).
+  unfold c0 in HV. rewrite HV. ring.
+Qed.
+
+Lemma dsub_eq A A' B B' : A == A' -> B == B' -> bcompat (bsh A) (bsh B) = true -> nr A = nr B -> nc A = nc B ->
+  dsub A B == dsub A' B'.
+Proof.
+  intros HA HB HC Hr Hc.
+  pose proof (BTeq_bsh _ _ HA) as E1. pose proof (BTeq_bsh _ _ HB) as E2.
+  apply BTeq_intro; simpl; try (rewrite ?E1, ?E2; reflexivity); try apply (BTeq_nr _ _ HA); try apply (BTeq_nc _ _ HA).
+  intros I i j HI Hi Hj. f_equal.
+  - eapply bget_eq; eauto. apply bsub_bcast_l; assumption.
+  - eapply bget_eq; eauto; [apply bsub_bcast_r; assumption|lia|lia].
+Qed.
